@@ -9,7 +9,7 @@ import common as C
 import sim as S
 from unittest import mock
 
-IMPORTS = 'From PM Require Import Lib.Bytes Lib.PyStr Net.Auth Net.PluginChain Net.PluginCases.'
+IMPORTS = 'From Coq Require Import ZArith.\nFrom PM Require Import Lib.Bytes Lib.PyStr Net.Auth Net.PluginChain Net.PluginCases.'
 COQ_TARGETS_COMMON = ['theories/Net/PluginCases.vo']
 ANCHOR_FILES = ['proxy/http/proxy/auth.py', 'proxy/common/flag.py', 'proxy/common/plugins.py', 'proxy/http/proxy/server.py',
                 'proxy/http/proxy/plugin.py', 'proxy/http/handler.py', 'proxy/http/exception/http_request_rejected.py',
@@ -426,7 +426,7 @@ def cob(b):
 def coq_request(r):
     hs = C.coq_list('(%s, (%s, %s))' % (cb(k), cb(n), cb(v)) for k, n, v in r['headers'])
     txt = '(mkRequest %s %s %s %s %s %s %s %s)' % (
-        cb(r['method']), cob(r['host']), C.coq_option(C.coq_N, r['port']), cob(r['path']), cb(r['version']), hs,
+        cb(r['method']), cob(r['host']), C.coq_option(lambda n: '(%d)%%Z' % n, r['port']), cob(r['path']), cb(r['version']), hs,
         cob(r['body']), C.coq_bool(r['tunnel']))
     if _REQ_TABLE is None:
         return txt
@@ -561,11 +561,11 @@ def mk_request(rng, method=None, auth_line=None, extra_lines=(), later=False):
     lines = []
     body = None
     if method == b'CONNECT':
-        port = rng.choice([443, 8443, 1])
+        port = rng.choice([443, 443, 8443, 1, 65535, 65536, 70000, 0, -1])
         target = host + b':' + str(port).encode()
         path = None
     else:
-        port = rng.choice([None, None, 8080, 1])
+        port = rng.choice([None, None, None, None, 8080, 1, 65535, 65536, 99999, 0, -1])
         p = rng.choice([b'/', b'/a/b?x=1', b'', b'/get'])
         target = b'http://' + host + (b'' if port is None else b':' + str(port).encode()) + p
         port = 80 if port is None else port
